@@ -32,11 +32,15 @@ def body(c):
           if x["fam"] == "L0ToL0"]
     # many bottom tables: compactions that are split into sub-compactions (addSplits picks a bound
     # every 3 bottom tables), top tables holding newer versions of keys at the split points
-    g3 = dict(L.BASE, Keys="{1, 2, 3, 4, 5, 6, 7}", MaxTs="10", MaxId="13", Wide="7", L0Hold="0", MtMax="3", MaxLevel="2")
-    c3 = [x for x in L.dedupe(L.generate(c, "wide (split sub-compactions)", g3, c.seed + 2, simulate=(1500 if q else 15000), depth=14, workers=4))
-          if x["fam"] != "L0ToL0" and sum(len(l) for l in x["pre"]["lv"]) >= 5]
+    if q:
+        g3 = dict(L.BASE, Keys="{1, 2, 3, 4, 5}", MaxTs="8", MaxId="11", Wide="5", L0Hold="0", MtMax="3", MaxLevel="2")
+        w3 = L.generate(c, "wide (split sub-compactions)", g3, c.seed + 2, simulate=150, depth=10, workers=8, timeout=900)
+    else:
+        g3 = dict(L.BASE, Keys="{1, 2, 3, 4, 5, 6, 7}", MaxTs="10", MaxId="13", Wide="7", L0Hold="0", MtMax="3", MaxLevel="2")
+        w3 = L.generate(c, "wide (split sub-compactions)", g3, c.seed + 2, simulate=600, depth=14, workers=8, timeout=3000)
+    c3 = [x for x in L.dedupe(w3) if x["fam"] != "L0ToL0" and sum(len(l) for l in x["pre"]["lv"]) >= (4 if q else 5)]
     rnd.shuffle(c3)
-    c.cov["cases_with_at_least_5_bottom_tables"] = len(c3)
+    c.cov["cases_with_many_bottom_tables"] = len(c3)
     rnd.shuffle(cases)
     rnd.shuffle(c2)
     n = 160 if q else 5000
